@@ -1,5 +1,6 @@
 """U4l: spawn_pipeline_processes (brush-core/src/interp.rs): every stage gets the caller's errexit flag; adjacent stages share a pipe."""
 from vx.unit import Unit
+from .common import runtime_options_item
 from vx.extract import C
 
 PROPS = ['C03', 'C02', 'C10', 'C01']
@@ -35,6 +36,7 @@ def build(repo, findings):
     pc.replace("commands::ShellForCommand<'a, SE>", "commands::ShellForCommand<'a>", 'R4', 'extension generic erased')
     pc.r11().pub_fields()
     u.add(pc)
+    runtime_options_item(u)
     u.prelude('exec/spawn_spec.rs')
     fn = 'spawn_pipeline_processes'
     f = interp.item(r'^async fn spawn_pipeline_processes\(', fn).r1().r3().r4()
